@@ -58,9 +58,15 @@ VERBOSE = bool(os.environ.get('VERIF_VERBOSE'))
 
 def _worker(text, timeout_s, conn):
     try:
-        s = z3.Solver(); s.set('timeout', int(timeout_s * 1000))
-        s.from_string(text)
-        t0 = time.time(); r = s.check(); dt = time.time() - t0
+        t0 = time.time(); r = z3.unknown
+        if '(mod ' in text or '(div ' in text or '(rem ' in text:
+            # integer mod/div: eliminate them first (default solver was measured to time out where this is instant)
+            s = z3.Then('simplify', 'purify-arith', 'smt').solver(); s.set('timeout', int(min(timeout_s, 20) * 1000))
+            s.from_string(text); r = s.check()
+        if r == z3.unknown:
+            s = z3.Solver(); s.set('timeout', int(max(1, timeout_s - (time.time() - t0)) * 1000))
+            s.from_string(text); r = s.check()
+        dt = time.time() - t0
         mdl = None
         if r == z3.sat:
             m = s.model(); mdl = {d.name(): str(m[d]) for d in m.decls() if d.arity() == 0}
